@@ -63,18 +63,19 @@ var c06ModelOpts = modelOpts{
 }
 
 var c06Needles = map[string]string{
-	"fail-unbound":            "c14fail",
-	"fail-some":               "c14sel",
-	"add-import":              "c14ctx",
-	"dots-import":             "c14wrap",
-	"replace-import-shadowed": "example.com/conversion/to",
-	"bump":                    "c14bump",
-	"elide-then-delete":       "c14",
-	"unparseable-result":      "c14chk",
-	"plain-names":             "c14keep",
-	"drop-arg":                "c14emit",
-	"module-imports":          "c14modcall",
-	"for-cond-elided":         "c14n = c14n +",
+	"fail-unbound":               "c14fail",
+	"fail-some":                  "c14sel",
+	"add-import":                 "c14ctx",
+	"dots-import":                "c14wrap",
+	"replace-import-shadowed":    "example.com/conversion/to",
+	"bump":                       "c14bump",
+	"captured-name-under-import": "Fatalln",
+	"elide-then-delete":          "c14",
+	"unparseable-result":         "c14chk",
+	"plain-names":                "c14keep",
+	"drop-arg":                   "c14emit",
+	"module-imports":             "c14modcall",
+	"for-cond-elided":            "c14n = c14n +",
 }
 
 // c06Exact: for these changes the only possible instance is known, so a file
